@@ -103,7 +103,7 @@ namespace c08
         }
     };
 
-    alignas(64) static u8 g_leafobj[3][1024];
+    alignas(64) static u8 g_leafobj[6][1024];
     template <class A>
     struct real_backend : backend
     {
@@ -264,7 +264,7 @@ namespace c08
         backend*          be = nullptr;
         std::vector<lrec> live;
     };
-    static leaf_state            g_leaf[3];
+    static leaf_state            g_leaf[6]; // 0..2: leaves of the (first) composition object, 3..5: leaves of the second object (move systems)
     static std::vector<call_rec> g_calls;
     static bool                  g_verbose_calls = false;
 
@@ -350,38 +350,42 @@ namespace c08
     struct leaf
     {
         using is_stateful = std::true_type;
-        int tag = I; // not empty: an empty, stateful, not default constructible composition trips a static_assert of the traits
+        // not empty (an empty, stateful, not default constructible composition trips a static_assert of the traits): the
+        // index of the leaf state this handle refers to; I for the first composition object, I + 3 for the second one
+        int idx = I;
+        leaf() = default;
+        explicit leaf(int i) : idx(i) {}
         void* allocate_node(std::size_t size, std::size_t align)
         {
-            return L_alloc(I, false, node_shape(size, align));
+            return L_alloc(idx, false, node_shape(size, align));
         }
         void* allocate_array(std::size_t count, std::size_t size, std::size_t align)
         {
-            return L_alloc(I, false, array_shape(count, size, align));
+            return L_alloc(idx, false, array_shape(count, size, align));
         }
         void deallocate_node(void* p, std::size_t size, std::size_t align) noexcept
         {
-            L_dealloc(I, p, node_shape(size, align));
+            L_dealloc(idx, p, node_shape(size, align));
         }
         void deallocate_array(void* p, std::size_t count, std::size_t size, std::size_t align) noexcept
         {
-            L_dealloc(I, p, array_shape(count, size, align));
+            L_dealloc(idx, p, array_shape(count, size, align));
         }
         void* try_allocate_node(std::size_t size, std::size_t align) noexcept
         {
-            return L_alloc(I, true, node_shape(size, align));
+            return L_alloc(idx, true, node_shape(size, align));
         }
         void* try_allocate_array(std::size_t count, std::size_t size, std::size_t align) noexcept
         {
-            return L_alloc(I, true, array_shape(count, size, align));
+            return L_alloc(idx, true, array_shape(count, size, align));
         }
         bool try_deallocate_node(void* p, std::size_t size, std::size_t align) noexcept
         {
-            return L_try_dealloc(I, p, node_shape(size, align));
+            return L_try_dealloc(idx, p, node_shape(size, align));
         }
         bool try_deallocate_array(void* p, std::size_t count, std::size_t size, std::size_t align) noexcept
         {
-            return L_try_dealloc(I, p, array_shape(count, size, align));
+            return L_try_dealloc(idx, p, array_shape(count, size, align));
         }
     };
     using L0 = leaf<0>;
@@ -440,6 +444,10 @@ namespace c08
         virtual ~IComp() {}
         virtual void* alloc(const shape& s, bool try_)            = 0;
         virtual bool  dealloc(void* p, const shape& s, bool try_) = 0;
+        virtual void  move_assign(IComp&)
+        {
+            herror("move assignment not available for this composition");
+        }
     };
     template <class C, bool Composable>
     struct comp_ops
@@ -508,6 +516,19 @@ namespace c08
             return c;
         }
     };
+    // composition that can be move-assigned from another object of the same type
+    template <class C>
+    struct CompMv : Comp<C>
+    {
+        template <class... A>
+        explicit CompMv(A&&... a) : Comp<C>(std::forward<A>(a)...)
+        {
+        }
+        void move_assign(IComp& o) override
+        {
+            this->c = std::move(static_cast<CompMv<C>&>(o).c);
+        }
+    };
     // composition that refers to an inner composition held next to it
     template <class Inner, class C>
     struct CompRef : CompBase<C>
@@ -546,6 +567,12 @@ namespace c08
         int                     leaves;
         std::function<IComp*()> make;
         std::vector<unsigned>   tmask; // per tracker id: bit i set = leaf<i> lies below that tracked_allocator layer
+        // move systems: two objects of the same type, object k over the leaf states 3k..3k+2 with its own minimum alignment
+        std::function<IComp*(int base, std::size_t min_alignment)> make2;
+        bool dual() const
+        {
+            return bool(make2);
+        }
     };
 
     inline std::vector<comp_def> comp_defs()
@@ -624,6 +651,27 @@ namespace c08
                          using IN = FB<FB<L0, L1>, L2>;
                          return new Comp<SG<TH<IN>, fm::null_allocator>>(TH<IN>(4096, IN(FB<L0, L1>(L0{}, L1{}), L2{})), fm::null_allocator{});
                      }});
+        // move systems (C08-H): aligned_allocator layers with DIFFERENT minimum alignments in the two objects
+        auto dual = [&](const char* nm, const char* ty, int leaves, std::function<IComp*(int, std::size_t)> m2) {
+            comp_def d{nm, ty, leaves, [m2] { return m2(0, 16); }, {}, m2};
+            v.push_back(d);
+        };
+        dual("mvA0", "aligned<L0> (two objects, move assignment)", 1, [](int b, std::size_t al) { return new CompMv<AL<L0>>(al, L0(b)); });
+        dual("mvFa0_1", "fallback<aligned<L0>,L1> (two objects, move assignment)", 2,
+             [](int b, std::size_t al) { return new CompMv<FB<AL<L0>, L1>>(AL<L0>(al, L0(b)), L1(b + 1)); });
+        dual("mvFa0_a1", "fallback<aligned<L0>,aligned<L1>> (two objects, move assignment)", 2,
+             [](int b, std::size_t al) { return new CompMv<FB<AL<L0>, AL<L1>>>(AL<L0>(al, L0(b)), AL<L1>(al, L1(b + 1))); });
+        dual("mvF_Fa0_1_2", "fallback<fallback<aligned<L0>,L1>,L2> (two objects, move assignment)", 3, [](int b, std::size_t al) {
+            return new CompMv<FB<FB<AL<L0>, L1>, L2>>(FB<AL<L0>, L1>(AL<L0>(al, L0(b)), L1(b + 1)), L2(b + 2));
+        });
+        dual("mvF0_Fa1_2", "fallback<L0,fallback<aligned<L1>,L2>> (two objects, move assignment)", 3, [](int b, std::size_t al) {
+            return new CompMv<FB<L0, FB<AL<L1>, L2>>>(L0(b), FB<AL<L1>, L2>(AL<L1>(al, L1(b + 1)), L2(b + 2)));
+        });
+        dual("mvS_a0_1", "binary_segregator<threshold<aligned<L0>>,L1> (two objects, move assignment)", 2, [](int b, std::size_t al) {
+            return new CompMv<SG<TH<AL<L0>>, L1>>(TH<AL<L0>>(16, AL<L0>(al, L0(b))), L1(b + 1));
+        });
+        dual("mvaF01", "aligned<fallback<L0,L1>> (two objects, move assignment)", 2,
+             [](int b, std::size_t al) { return new CompMv<AL<FB<L0, L1>>>(al, FB<L0, L1>(L0(b), L1(b + 1))); });
         return v;
     }
 
@@ -633,6 +681,11 @@ namespace c08
         std::string name;
         backend*    be[3];
         bool        extended = false; // run with the subset of compositions only
+        backend*    be2[3] = {nullptr, nullptr, nullptr}; // move systems: leaves of the second object
+        bool dual() const
+        {
+            return be2[0] != nullptr;
+        }
     };
     inline bool comp_in_subset(const std::string& n)
     {
@@ -684,6 +737,26 @@ namespace c08
             using I3 = fm::iteration_allocator<3, vblk>;
             v.push_back({"I2ii", {mk_real<I2>("iteration_allocator<2>(block 96)", [](void* m, int id) { return ::new (m) I2(96, id); }), new slot_backend(32),
                                   new slot_backend(1008)}, true});
+            {
+                // move systems: object 0 (minimum alignment 16) over pools with 32-byte nodes, object 1 (minimum alignment 8)
+                // over pools with 8-byte nodes whose nodes only guarantee alignment 8
+                leaf_cfg a{"mvI", {new slot_backend(48), new slot_backend(32), new slot_backend(496)}, true};
+                a.be2[0] = new slot_backend(48);
+                a.be2[1] = new slot_backend(32);
+                a.be2[2] = new slot_backend(496);
+                v.push_back(a);
+                leaf_cfg b{"mvP", {pool(std::common_type<NP>{}, "memory_pool<node_pool>", 32, 3), new slot_backend(32), new slot_backend(496)}, true};
+                b.be2[0] = pool(std::common_type<NP>{}, "memory_pool<node_pool>", 8, 4);
+                b.be2[1] = new slot_backend(32);
+                b.be2[2] = new slot_backend(496);
+                v.push_back(b);
+                leaf_cfg c{"mvPP", {pool(std::common_type<AP>{}, "memory_pool<array_pool>", 32, 2), pool(std::common_type<AP>{}, "memory_pool<array_pool>", 32, 2),
+                                    new slot_backend(496)}, true};
+                c.be2[0] = pool(std::common_type<AP>{}, "memory_pool<array_pool>", 8, 4);
+                c.be2[1] = pool(std::common_type<AP>{}, "memory_pool<array_pool>", 8, 4);
+                c.be2[2] = new slot_backend(496);
+                v.push_back(c);
+            }
             v.push_back({"I3Pi", {mk_real<I3>("iteration_allocator<3>(block 144)", [](void* m, int id) { return ::new (m) I3(144, id); }),
                                   pool(std::common_type<AP>{}, "memory_pool<array_pool>", 16, 2), new slot_backend(1008)}, true});
         }
@@ -704,8 +777,17 @@ namespace c08
             int   leaf;   // leaf that served it
             u32   pat;
             int   slot;   // iteration_allocator behind the leaf: internal stack active at allocation
+            int   obj;    // move systems: composition object that owns it now
         };
         std::vector<live_t> live;
+        std::vector<int>    ids;           // active leaf state indexes
+        IComp*              C2[2] = {nullptr, nullptr};
+        bool                valid[2] = {true, false};
+        bool                abandoned[6] = {};
+        backend* BE(int idx) const
+        {
+            return idx < 3 ? lc.be[idx] : lc.be2[idx - 3];
+        }
         u32                 next_pat = 0;
         u8*                 outsider = nullptr;
         volatile int        cur_step = -1;
@@ -717,6 +799,14 @@ namespace c08
             alpha[1] = array_shape(1, 16, 8);
             alpha[2] = array_shape(2, 16, 8);
             alpha[3] = array_shape(3, 16, 8);
+            if (cd.dual())
+            {
+                // 8-byte requests with alignment 8: object 1's pools have 8-byte nodes (maximum alignment 8)
+                alpha[0] = node_shape(8, 8);
+                alpha[1] = array_shape(1, 8, 8);
+                alpha[2] = array_shape(2, 8, 8);
+                alpha[3] = array_shape(3, 8, 8);
+            }
         }
         std::string name() const override
         {
@@ -725,7 +815,15 @@ namespace c08
         std::string op_name(int op)
         {
             if (op < 4)
-                return (try_mode ? "try_allocate " : "allocate ") + alpha[op].str();
+                return (cd.dual() ? "x: " : "") + std::string(try_mode ? "try_allocate " : "allocate ") + alpha[op].str();
+            if (op >= 10 && op < 14)
+                return "y: " + std::string(try_mode ? "try_allocate " : "allocate ") + alpha[op - 10].str();
+            if (op == 70)
+                return "x = std::move(y)";
+            if (op == 71)
+                return "y = std::move(x)";
+            if (op == 72)
+                return "std::swap(x, y) (move construction + two move assignments)";
             if (op == 50)
                 return "try_deallocate(outsider pointer directly behind the leaf buffers)";
             if (op == 60)
@@ -735,9 +833,20 @@ namespace c08
         void enabled(std::vector<int>& out)
         {
             out.clear();
-            for (int i = 0; i < 4; ++i)
-                out.push_back(i);
-            if (try_mode)
+            if (valid[0])
+                for (int i = 0; i < 4; ++i)
+                    out.push_back(i);
+            if (cd.dual())
+            {
+                if (valid[1])
+                    for (int i = 0; i < 4; ++i)
+                        out.push_back(10 + i);
+                if (valid[1])
+                    out.push_back(70);
+                if (valid[0])
+                    out.push_back(71);
+            }
+            if (try_mode && valid[0])
                 out.push_back(50);
             if (lc.be[0]->iterations() > 0)
                 out.push_back(60);
@@ -748,15 +857,16 @@ namespace c08
         {
             hasher h;
             UP().digest(h);
-            for (int i = 0; i < cd.leaves; ++i)
+            h.word(u64(valid[0]) | u64(valid[1]) << 1);
+            for (int i : ids)
             {
-                lc.be[i]->digest(h);
+                BE(i)->digest(h);
                 for (auto& r : g_leaf[i].live)
                     h.word(u64(static_cast<u8*>(r.p) - g_leafbuf) ^ (u64(r.s.array) << 40) ^ (u64(r.s.count) << 44) ^ (u64(r.s.size) << 52));
                 h.word(0xfeed);
             }
             for (auto& l : live)
-                h.word(u64(l.leaf) | u64(l.s.array) << 8 | u64(l.s.count) << 16);
+                h.word(u64(l.leaf) | u64(l.s.array) << 8 | u64(l.s.count) << 16 | u64(l.obj) << 24);
             return h.get().a ^ h.get().b;
         }
         bool contents_ok(std::string& which)
@@ -836,11 +946,17 @@ namespace c08
             g_verbose_calls = verbose;
             // leaf buffers adjacent: leaf0 | leaf1 | leaf2 | outsider
             std::size_t off = 0;
-            for (int i = 0; i < 3; ++i)
+            ids.clear();
+            for (int i = 0; i < 6; ++i)
             {
                 g_leaf[i].live.clear();
-                g_leaf[i].be = i < cd.leaves ? lc.be[i] : nullptr;
-                if (auto sb = dynamic_cast<slot_backend*>(lc.be[i]))
+                g_leaf[i].be = nullptr;
+                abandoned[i] = false;
+                if (i % 3 >= cd.leaves || (i >= 3 && !cd.dual()))
+                    continue;
+                ids.push_back(i);
+                g_leaf[i].be = BE(i);
+                if (auto sb = dynamic_cast<slot_backend*>(BE(i)))
                 {
                     sb->buf = g_leafbuf + off;
                     off += sb->granules * 16;
@@ -848,16 +964,24 @@ namespace c08
             }
             outsider = g_leafbuf + off;
             std::memset(outsider, 0x77, 16);
-            for (int i = 0; i < cd.leaves; ++i)
-                lc.be[i]->construct(i);
-            IComp* C = cd.make();
+            for (int i : ids)
+                BE(i)->construct(i);
+            C2[0]    = cd.dual() ? cd.make2(0, 16) : cd.make();
+            C2[1]    = cd.dual() ? cd.make2(3, 8) : nullptr;
+            valid[0] = true;
+            valid[1] = cd.dual();
+            IComp* C = C2[0];
             if (verbose)
                 std::printf("composition %s over leaves [%s]%s\n", cd.type.c_str(),
                             (lc.be[0]->name + " | " + lc.be[1]->name + (cd.leaves > 2 ? " | " + lc.be[2]->name : "")).c_str(), try_mode ? ", composable interface" : "");
+            if (verbose && cd.dual())
+                std::printf("  x: minimum alignment 16 over leaf states 0..%d; y: minimum alignment 8 over leaf states 3..%d [%s | %s%s]\n", cd.leaves - 1,
+                            2 + cd.leaves, lc.be2[0]->name.c_str(), lc.be2[1]->name.c_str(), cd.leaves > 2 ? (" | " + lc.be2[2]->name).c_str() : "");
             if (try_mode && !C->composable)
             {
                 herror("composition " + cd.name + " is not composable but was scheduled in try mode");
-                delete C;
+                delete C2[0];
+                delete C2[1];
                 return;
             }
             bool bad = false;
@@ -871,18 +995,49 @@ namespace c08
                 std::string res;
                 if (verbose)
                     std::printf("  step %zu: %s\n", step, op_name(op).c_str());
-                if (op < 4)
+                if (op < 4 || (op >= 10 && op < 14))
                 {
-                    shape sh    = alpha[op];
+                    int   ob    = op >= 10 ? 1 : 0;
+                    shape sh    = alpha[op % 10];
                     void* p     = nullptr;
                     bool  threw = false;
+                    u64   up0   = UP().allocs;
+                    if (!valid[ob])
+                    {
+                        herror(fmt("operation %d on a moved-from object at step %zu", op, step));
+                        bad = true;
+                        break;
+                    }
                     try
                     {
-                        p = C->alloc(sh, try_mode);
+                        p = C2[ob]->alloc(sh, try_mode);
                     }
                     catch (...)
                     {
                         threw = true;
+                    }
+                    if (try_mode)
+                    {
+                        // C03: a composable try_ function never enters a throwing allocate_*, never grows, never throws
+                        for (auto& c : g_calls)
+                            if (c.fn == 0)
+                            {
+                                fail("try-called-throwing-path", fmt("%s entered the THROWING allocate_%s of leaf<%d> (%s)", op_name(op).c_str(),
+                                                                     c.s.array ? "array" : "node", c.leaf, g_leaf[c.leaf].be->name.c_str()));
+                                bad = true;
+                                break;
+                            }
+                        if (UP().allocs != up0)
+                        {
+                            fail("try-grew-upstream", fmt("%s made an allocator take %llu new upstream block(s)", op_name(op).c_str(),
+                                                          (unsigned long long)(UP().allocs - up0)));
+                            bad = true;
+                        }
+                        if (threw)
+                        {
+                            fail("try-threw", op_name(op) + " let an exception escape");
+                            bad = true;
+                        }
                     }
                     int served = -1, nserved = 0;
                     for (auto& c : g_calls)
@@ -908,11 +1063,11 @@ namespace c08
                     }
                     if (p && !bad)
                     {
-                        live_t l{p, sh, served, next_pat++, served >= 0 ? lc.be[served]->cur_iteration() : 0};
+                        live_t l{p, sh, served, next_pat++, served >= 0 ? BE(served)->cur_iteration() : 0, ob};
                         fill_pattern(p, sh.bytes(), l.pat);
                         live.push_back(l);
-                        bump(served == 0 ? "p2_served_by_default" : "p2_served_by_fallback");
-                        if (served != 0)
+                        bump(served % 3 == 0 ? "p2_served_by_default" : "p2_served_by_fallback");
+                        if (served % 3 != 0)
                             used_fallback = true;
                         else if (used_fallback)
                             bump("p2_default_serves_again_after_running_full");
@@ -926,6 +1081,46 @@ namespace c08
                     if (verbose) res = p ? fmt("memory of leaf<%d>", served) : threw ? "exception" : "null";
                     if (!bad)
                         check_trackers(p ? served : -1, -1, p, op, nullptr);
+                }
+                else if (op == 70 || op == 71)
+                {
+                    // target = std::move(source): the target now owns what the source's allocators handed out; what the target
+                    // had handed out before is gone with its old allocators (dropped from the model), the source is moved-from
+                    int tgt = op == 70 ? 0 : 1, src = 1 - tgt;
+                    if (!valid[src])
+                    {
+                        herror(fmt("move from a moved-from object at step %zu", step));
+                        bad = true;
+                        break;
+                    }
+                    C2[tgt]->move_assign(*C2[src]);
+                    std::size_t dropped = 0;
+                    for (std::size_t i = 0; i < live.size();)
+                        if (live[i].obj == tgt)
+                        {
+                            int lf = live[i].leaf;
+                            auto& LL = g_leaf[lf].live;
+                            LL.erase(std::remove_if(LL.begin(), LL.end(), [&](const lrec& r) { return r.p == live[i].p; }), LL.end());
+                            abandoned[lf] = true;
+                            live.erase(live.begin() + long(i));
+                            ++dropped;
+                        }
+                        else
+                            ++i;
+                    for (auto& l : live)
+                        l.obj = tgt;
+                    valid[tgt] = true;
+                    valid[src] = false;
+                    if (!g_calls.empty())
+                    {
+                        fail("move-assignment-touched-leaves", fmt("%s made %zu leaf call(s)", op_name(op).c_str(), g_calls.size()));
+                        bad = true;
+                    }
+                    bump("p2_move_assignments");
+                    if (!live.empty())
+                        bump("p2_move_assignments_with_live_allocations_taken_over");
+                    if (counting()) class_keys().insert(fmt("%s|move|%d|%zu|%zu", name().c_str(), op, dropped, live.size()));
+                    if (verbose) res = fmt("%zu allocation(s) taken over, %zu of the old target dropped", live.size(), dropped);
                 }
                 else if (op == 60)
                 {
@@ -975,7 +1170,7 @@ namespace c08
                         break;
                     }
                     live_t l = live[std::size_t(idx)];
-                    bool   r = C->dealloc(l.p, l.s, try_mode);
+                    bool   r = C2[l.obj]->dealloc(l.p, l.s, try_mode);
                     int    accepted = 0, where = -1;
                     for (auto& c : g_calls)
                         if (c.fn >= 2 && c.ok)
@@ -999,7 +1194,7 @@ namespace c08
                     if (!vios().empty())
                         bad = true;
                     live.erase(live.begin() + idx);
-                    bump(l.leaf == 0 ? "p2_released_to_default" : "p2_released_to_fallback");
+                    bump(l.leaf % 3 == 0 ? "p2_released_to_default" : "p2_released_to_fallback");
                     if (l.leaf == 0 && lc.be[0]->iterations() > 0 && l.slot != lc.be[0]->cur_iteration())
                         bump("p2_released_memory_of_earlier_iteration");
                     if (counting()) class_keys().insert(fmt("%s|release|%d|%d|leaf%d", name().c_str(), int(l.s.array), int(l.s.count), l.leaf));
@@ -1007,7 +1202,7 @@ namespace c08
                     if (!bad && live.empty())
                     {
                         bump("p2_everything_released");
-                        for (int i = 0; i < cd.leaves; ++i)
+                        for (int i : ids)
                         {
                             std::string why;
                             if (!g_leaf[i].live.empty())
@@ -1015,10 +1210,10 @@ namespace c08
                                 fail("leaf-still-holds-memory", fmt("all allocations released but leaf<%d> still has %zu outstanding", i, g_leaf[i].live.size()));
                                 bad = true;
                             }
-                            else if (!lc.be[i]->pristine(why))
+                            else if (!abandoned[i] && !BE(i)->pristine(why))
                             {
                                 fail("not-back-to-full-capacity", fmt("all allocations released but leaf<%d> (%s) is not back to full capacity: %s", i,
-                                                                      lc.be[i]->name.c_str(), why.c_str()));
+                                                                      BE(i)->name.c_str(), why.c_str()));
                                 bad = true;
                             }
                         }
@@ -1036,7 +1231,7 @@ namespace c08
                 if (!bad)
                 {
                     std::size_t tot = 0;
-                    for (int i = 0; i < cd.leaves; ++i)
+                    for (int i : ids)
                         tot += g_leaf[i].live.size();
                     if (tot != live.size())
                     {
@@ -1063,7 +1258,7 @@ namespace c08
                     live.pop_back();
                     g_calls.clear();
                     g_trkev.clear();
-                    C->dealloc(l.p, l.s, try_mode);
+                    C2[l.obj]->dealloc(l.p, l.s, try_mode);
                     int where = -1;
                     for (auto& c : g_calls)
                         if (c.fn >= 2 && c.ok)
@@ -1081,9 +1276,10 @@ namespace c08
                     for (auto& x : vios())
                         x.detail += " (while releasing the remaining allocations at the end of the sequence)";
                 }
-                delete C;
-                for (int i = cd.leaves - 1; i >= 0; --i)
-                    lc.be[i]->destroy();
+                delete C2[0];
+                delete C2[1];
+                for (std::size_t k = ids.size(); k-- > 0;)
+                    BE(ids[k])->destroy();
             }
             g_verbose_calls = false;
         }
@@ -1097,7 +1293,11 @@ namespace c08
             {
                 int         st = cur_step;
                 std::string at = st < 0 ? "construction" : st >= 1000 ? "final release/destruction" : fmt("step %d (%s)", st, op_name(ops[std::size_t(st)]).c_str());
-                fail(outcome_name(oc), fmt("the library %s during %s of a sequence that respects all preconditions", outcome_name(oc), at.c_str()));
+                bool try_alloc = try_mode && st >= 0 && st < 1000 && (ops[std::size_t(st)] < 4 || (ops[std::size_t(st)] >= 10 && ops[std::size_t(st)] < 14));
+                if (try_alloc && oc == OUT_ABORTED)
+                    fail("try-terminated", fmt("std::terminate / abort reached inside the noexcept composable call at %s (an exception escaped a try_ function?)", at.c_str()));
+                else
+                    fail(outcome_name(oc), fmt("the library %s during %s of a sequence that respects all preconditions", outcome_name(oc), at.c_str()));
             }
             out.v = vios();
         }
